@@ -207,15 +207,23 @@ Close == /\ Quiescent /\ w.open /\ ~w.wedged
 PutDropped(e) ==
   /\ Quiescent /\ ~w.open /\ ("WriteErrorsSkipped" \in Dev \/ "TornCreate" \in Dev)
   /\ ref' = ApplyE(ref, e)
-  /\ call' = [name |-> "put", res |-> "err", pre |-> ref, faulted |-> call.faulted, told |-> FALSE]
+  /\ call' = [name |-> "put", res |-> "err", pre |-> ref, faulted |-> FALSE, told |-> FALSE]
   /\ cnt' = [cnt EXCEPT !.writes = @ + 1]
   /\ UNCHANGED <<disk, w, pend, fm, dur, bmaps, crashobs>>
 
-\* as built: Close on a writer whose earlier Close failed (descriptor already closed)
-CloseWedged ==
+\* as built: calls on a writer whose earlier Close failed (descriptor already closed, writer object still in
+\* use): entries go into its buffer, every flush / sync / close fails, nothing reaches the file
+WedgedFail(name) ==
   /\ Quiescent /\ w.open /\ w.wedged
-  /\ call' = Failed("close") /\ cnt' = [cnt EXCEPT !.calls = @ + 1]
+  /\ call' = Failed(name) /\ cnt' = [cnt EXCEPT !.calls = @ + 1]
   /\ UNCHANGED <<disk, w, pend, ref, fm, dur, bmaps, crashobs>>
+CloseWedged == WedgedFail("close")
+PutWedged(e, fl, told) ==
+  /\ Quiescent /\ w.open /\ w.wedged
+  /\ ref' = ApplyE(ref, e)
+  /\ call' = [name |-> "put", res |-> IF fl THEN "err" ELSE "ok", pre |-> ref, faulted |-> FALSE, told |-> told]
+  /\ cnt' = [cnt EXCEPT !.writes = @ + 1]
+  /\ UNCHANGED <<disk, w, pend, fm, dur, bmaps, crashobs>>
 
 \* ---------------------------------------------------------------- file operations
 BlockOf(es) == [t |-> "blk", es |-> es,
